@@ -21,7 +21,7 @@ func Kill(pid int, sig Signal) error {
 	if simos.Cur == nil {
 		return errors.New("simsyscall without simulated OS")
 	}
-	return simos.Cur.Kill(pid)
+	return simos.Cur.KillSig(pid, int(sig))
 }
 
 func Exec(argv0 string, argv []string, envv []string) error {
